@@ -264,8 +264,21 @@ func runScenario(s scenario) result {
 			target.StartWithVal(888888)
 		}
 	}
+	startOrFail := func() bool {
+		ok, dump, inc := startGuarded(startTarget)
+		if !ok {
+			if inc {
+				res.inconclusive = "Start slow"
+			} else {
+				fail("C14/start-blocks", "Start()/StartWithVal() of the target does not return (requests of callers that ran ahead are queued on it):\n%s", dump)
+			}
+		}
+		return ok
+	}
 	if !s.Eager {
-		startTarget()
+		if !startOrFail() {
+			return res
+		}
 	} else {
 		defer func() {}() // (eager: the target is started after the callers, below)
 	}
@@ -301,11 +314,17 @@ func runScenario(s scenario) result {
 					d = runner
 				}
 				want := -12345
+				var block *fpgo.CorDef[int]
 				got := d.DoNotation(func(self *fpgo.CorDef[int]) int {
+					block = self
 					want = callerBody(i, self)
 					return want
 				})
 				doResults[i] = [2]int{want, got}
+				// the do-block's coroutine is a coroutine: its effect has returned, so it becomes done
+				if block == nil || !vlib.WaitUntil(vlib.StallBudget(), block.IsDone) {
+					fail("C14/lifecycle", "caller %d: IsDone() of a DoNotation block's coroutine stays false after the block returned", i)
+				}
 			})
 		}
 	}
@@ -314,7 +333,9 @@ func runScenario(s scenario) result {
 		for g := 0; g < 20; g++ {
 			runtime.Gosched()
 		}
-		startTarget()
+		if !startOrFail() {
+			return res
+		}
 	}
 	done := make(chan struct{})
 	go func() { wg.Wait(); <-targetFinished; close(done) }()
@@ -442,6 +463,30 @@ func runScenario(s scenario) result {
 	return res
 }
 
+// startGuarded runs a Start/StartWithVal call that must return promptly whatever is queued on the
+// coroutine; false = it is blocked for ever (dump in msg), inconclusive = merely slow.
+func startGuarded(start func()) (ok bool, blockedDump string, inconclusive bool) {
+	done := make(chan struct{})
+	go func() { defer close(done); startGuardedBody(start) }()
+	select {
+	case <-done:
+		return true, "", false
+	case <-time.After(vlib.StallBudget()):
+	}
+	verdict, dump := vlib.ClassifyStall([]string{"c14.startGuardedBody"})
+	if verdict == "blocked" {
+		return false, dump, false
+	}
+	select {
+	case <-done:
+		return true, "", false
+	case <-time.After(vlib.StallBudget()):
+		return false, "", true
+	}
+}
+
+func startGuardedBody(start func()) { start() }
+
 func doNotationCaller(wg *sync.WaitGroup, fail func(k, f string, a ...any), body func()) {
 	defer wg.Done()
 	if p, st := vlib.Try(body); p != nil {
@@ -551,9 +596,14 @@ func TestTargetReturnsEarly(t *testing.T) {
 		for g := 0; g < 50; g++ {
 			runtime.Gosched()
 		}
-		target.Start()
 		vlib.S().Eval("returns-early")
 		vlib.S().NonTrivial("returns-early", fmt.Sprintf("callers=%d served=%d", callers, serve))
+		if ok, dump, inc := startGuarded(target.Start); !ok {
+			if !inc {
+				vlib.Fail(t, "C14/start-blocks", "callers=%d: Start() of a target with %d requests queued on it does not return:\n%s", callers, callers, dump)
+			}
+			return
+		}
 		select {
 		case <-returned:
 		case <-time.After(vlib.StallBudget()):
